@@ -32,7 +32,7 @@ Lemma cf_proc (fn' fn : ty) (m : bool) (name : string) (args : list expr) (en : 
   (exists i v o, under fn' = TFunc i v o /\ fn = TFunc i v o /\ is_interface fn' = false /\ is_nil_ty fn' = false) ->
   sig_ok fn m = true ->
   get_list self F = Some args -> get_list cur F = Some args ->
-  (forall x, In x args -> forall cols st, rec cols x st = Some (visit c cols x st)) ->
+  seq_ok c rec cols args st ->
   run_proc c M rec self methods 2 "checkFunc" [VT fn'; VB m; VNode PSelf; VS name; VNodes F] (mkG en cur cols st) k =
   let '(t, args', st') := check_func (CheckProofs.vargs c cols) fn m (loc_of self) args st in
   k (RReturn [VT t] (mkG en (set_list cur F args') cols st')).
